@@ -1,23 +1,32 @@
 #!/bin/bash
-# Must-fail corpus: applies every seeded change (/verif/seeded/<id>/patch.diff) and every extra mutation
-# (/verif/selftest/<name>.diff, first line "# props: C11 C05") to /repo, runs the named checks
-# (deductive part only unless BOUNDED=1), and reverts. A line "MISSED" means no check raised a violation.
-# Never leaves /repo modified.
+# Must-fail corpus: applies every seeded change (/verif/seeded/<id>[-2]/patch.diff) and every extra mutation
+# (/verif/selftest/<name>.diff, first line "# props: C11 C05", optional second line "# expect: benign") to a
+# scratch worktree of /repo's HEAD and runs the named checks against it (govc -repo <worktree> -out <scratch>);
+# /repo and /verif/evidence are not touched. Deductive part only unless BOUNDED=1.
+# "MISSED" = no check raised a violation; for "expect: benign" mutations the expected outcome is QUIET.
 cd /verif
 export GOFLAGS=-mod=mod GOPROXY=off GOSUMDB=off GOTOOLCHAIN=local
-if [ -n "$(git -C /repo status --porcelain)" ]; then echo "refusing: /repo has uncommitted changes"; exit 2; fi
-extra="-noreplay"; [ "${BOUNDED:-0}" = 1 ] || extra="$extra -nobounded"
-run() { # name patch props...
-  name=$1; patch=$2; shift 2
-  if ! git -C /repo apply --check "$patch" 2>/dev/null; then echo "SKIP  $name: patch does not apply"; return; fi
-  git -C /repo apply "$patch"
+extra="-noreplay -budget 5"; [ "${BOUNDED:-0}" = 1 ] || extra="$extra -nobounded"
+w=$(mktemp -d /tmp/st.XXXXXX)
+git -C /repo worktree add -q --detach "$w/wt" HEAD || exit 2
+trap 'cd /; git -C /repo worktree remove --force "$w/wt" 2>/dev/null; rm -rf "$w"' EXIT
+run() { # name patch expect props...
+  name=$1; patch=$2; expect=$3; shift 3
+  git -C "$w/wt" checkout -q -- . ; git -C "$w/wt" clean -fdq
+  if ! git -C "$w/wt" apply --check "$patch" 2>/dev/null; then echo "SKIP   $name: patch does not apply"; return; fi
+  git -C "$w/wt" apply "$patch"
   caught=""
   for p in "$@"; do
-    n=$(./bin/govc check -prop $p $extra -budget 5 2>&1 | grep -c '^VIOLATION')
+    n=$(./bin/govc check -prop $p $extra -repo "$w/wt" -out "$w/out" 2>&1 | grep -c '^VIOLATION')
     [ "$n" -gt 0 ] && caught="$caught $p($n)"
   done
-  git -C /repo checkout -- . ; git -C /repo clean -fdq -e zz_contracts_verif.go >/dev/null 2>&1
-  if [ -n "$caught" ]; then echo "CAUGHT $name by$caught"; else echo "MISSED $name (checked: $*)"; fi
+  if [ "$expect" = benign ]; then
+    if [ -n "$caught" ]; then echo "FALSE-ALARM $name by$caught"; else echo "QUIET  $name (benign, checked: $*)"; fi
+  else
+    if [ -n "$caught" ]; then echo "CAUGHT $name by$caught"; else echo "MISSED $name (checked: $*)"; fi
+  fi
 }
-for d in seeded/C*/; do id=$(basename $d); [ -f $d/patch.diff ] && run seed-$id /verif/$d/patch.diff $id; done
-for f in selftest/*.diff; do [ -f "$f" ] || continue; props=$(head -1 "$f" | sed -n 's/^# props: //p'); run $(basename $f .diff) /verif/$f $props; done
+for d in seeded/C*/; do n=$(basename $d); id=${n%%-*}; [ -f $d/patch.diff ] && run seed-$n /verif/$d/patch.diff caught $id; done
+for f in selftest/*.diff; do [ -f "$f" ] || continue
+  props=$(sed -n 's/^# props: //p' "$f" | head -1); expect=$(sed -n 's/^# expect: //p' "$f" | head -1)
+  run $(basename $f .diff) /verif/$f "${expect:-caught}" $props; done
